@@ -301,6 +301,9 @@ impl Manifest {
 
     /// Rollover the log.
     pub fn rollover(&mut self) -> Result<(), SError> {
+        if let Some(poison) = self.poison.as_ref() {
+            return Err(poison.clone());
+        }
         let edit = Self::to_edit(&self.strs, &self.info);
         let next_id = self.last_rollover;
         self.last_rollover += 1;
@@ -417,6 +420,12 @@ impl Manifest {
     }
 
     fn _apply(&mut self, output: &PathBuf, edit: Edit, allow_rollover: bool) -> Result<(), SError> {
+        // The edit is applied in memory before it is written.  Once a write failed, memory holds
+        // an edit that the disk may lack, and anything logged or rolled up on top of it would not
+        // replay to the same state:  refuse further work until the manifest gets reopened.
+        if let Some(poison) = self.poison.as_ref() {
+            return Err(poison.clone());
+        }
         let was_empty = self.strs.is_empty();
         let mut edit_str = String::new();
         Self::apply_edit(&edit, &mut self.strs, &mut self.info);
